@@ -24,7 +24,12 @@ func c20Valid(rng *RNG, which int) c20Doc {
 	marker := fmt.Sprintf("marker%d", rng.Intn(100000))
 	switch which {
 	case 0:
-		return c20Doc{f: format.PDF, raw: mkPDFSimple([]string{marker}), marker: marker}
+		raw := mkPDFSimple([]string{marker})
+		if len(marker)%2 == 0 {
+			// a file of the current version of the format
+			raw = bytes.Replace(raw, []byte("%PDF-1.4"), []byte("%PDF-2.0"), 1)
+		}
+		return c20Doc{f: format.PDF, raw: raw, marker: marker}
 	case 1:
 		return c20Doc{f: format.DOCX, zip: mkDOCXSimple([]string{marker, "second"}), marker: marker}
 	case 2:
